@@ -101,6 +101,25 @@ def get_shape_from_array(value, nd):
         return ()
 
 
+def _to_object_array(value, shape):
+    """Array of python objects with the given shape from nested sequences.
+
+    Only the first len(shape) levels are unpacked: items that are themselves
+    lists or tuples (nested arrays, (typename, data) pairs) are left intact.
+    """
+    arr = np.empty(shape, dtype=object)
+    nested = isinstance(value, (list, tuple))
+    for idx in np.ndindex(*shape):
+        if nested:
+            item = value
+            for ii in idx:
+                item = item[ii]
+        else:  # other sequences, xobject arrays
+            item = value[idx] if len(idx) > 1 else value[idx[0]]
+        arr[idx] = item
+    return arr
+
+
 def get_strides(shape, order, itemsize):
     """
     shape dimension for each index
@@ -394,6 +413,8 @@ class Array(metaclass=MetaArray):
 
             else:
                 # args must be an array of correct dimensions
+                if len(shape) > 1 and not hasattr(value, "shape"):
+                    value = _to_object_array(value, shape)
                 offsets = np.empty(shape, dtype="int64")
                 offset += items * 8
                 for idx in iter_index(shape, order):
@@ -508,7 +529,7 @@ class Array(metaclass=MetaArray):
                         )
         else:  # there is a value for initialization
             if not hasattr(value, "shape"):  # not nplike
-                value = np.asarray(value, dtype=object)
+                value = _to_object_array(value, info.shape)
             if cls._is_static_type:
                 ioffset = offset + cls._data_offset
                 for idx in iter_index(info.shape, cls._order):
